@@ -148,12 +148,12 @@ def idiom_print(rng):
     return p
 
 
-def idiom_loop(rng, n=None):
+def idiom_loop(rng, n=None, code=None):
     """count-down loop printing one character per iteration (see DESIGN §2.5): counter on stack 3,
     label (2, heart) registered by `형..`, loop while counter-1 >= 2"""
     n = n if n is not None else rng.choice([1, 2, 3, 4, 5, 7, 99, 100, 101, 102, 150])
     h = rng.choice([2, 3, 5])
-    code = rng.choice([65, 10, 0x1F600])
+    code = code if code is not None else rng.choice([65, 10, 0x1F600])
     body = [(0, 1, 2, leaf(h)), (3, 1, 4, None), (0, 1, 1, None), (1, 3, 3, None)]
     body += print_char(code)
     body += [(5, 1, 3, None), (0, 1, 2, (0, None, (0, None, leaf(h))))]
@@ -291,7 +291,28 @@ def idiom_jump_from_zero(rng):
             (0, 9, 8, None), (1, 2, 1, None)]
 
 
-IDIOMS = [idiom_nan_inside, idiom_zero_product, idiom_double_return, idiom_backjump_stack, idiom_input_loop, idiom_forward_jump, idiom_enc_error, idiom_print, idiom_loop, idiom_read, idiom_fraction, idiom_exit, idiom_multi, idiom_label_return, idiom_stacks]
+def idiom_bigfrac(rng):
+    """a fraction whose denominator has more limbs than its numerator (2^-36, 2^-66, 3/2^40): the gcd and the floor then divide
+    a short number by a long one (seeded change C13-quotient-vector-length-underflow), then it is printed"""
+    k = rng.choice([6, 7, 11])
+    p = [push(64)] * k + [(2, k, 3, None), (4, 1, rng.choice([1, 3, 3]), None)]
+    if rng.random() < 0.5: p += [push(3), (2, 2, 3, None)]
+    p += [(1, 1, rng.choice([1, 2, 3]), None)]
+    return p
+
+
+def two_labels_one_command(rng):
+    """a command with a conditional area that is visited twice inside the pre-executable prefix and takes a different heart each
+    time, so ONE command registers TWO labels; then input is needed; the residual code jumps to a label registered later in
+    the prefix (seeded change C03-one-label-per-command-in-restore). Whole program; stdin must be non-empty."""
+    a, b, c = rng.sample(range(2, 13), 3)
+    return [(0, 1, 3, None), (0, 1, 1, None), (0, 1, 3, None), (0, 1, 3, None), (0, 1, 1, None), (0, 1, 1, None),
+            (1, 1, 3, (0, leaf(a), leaf(b))), (1, 1, 3, (0, leaf(a), None)), (0, 1, 3, leaf(c)),
+            (5, 1, 0, None), (5, 1, 3, None), (0, 1, 2, None), (3, 1, 1, None), (1, 3, 4, None), (1, 1, 3, (0, leaf(c), None)),
+            (0, 1, 3, None), (3, 1, 1, None)]
+
+
+IDIOMS = [idiom_bigfrac, idiom_nan_inside, idiom_zero_product, idiom_double_return, idiom_backjump_stack, idiom_input_loop, idiom_forward_jump, idiom_enc_error, idiom_print, idiom_loop, idiom_read, idiom_fraction, idiom_exit, idiom_multi, idiom_label_return, idiom_stacks]
 
 
 def idiom_return_after_stop(rng):
